@@ -205,11 +205,11 @@ Proof.
     destruct (lookup a (r_kgs st)); cbn; [|reflexivity].
     rewrite lookup_remove_key. apply N.eqb_neq in Hne. rewrite Hne. reflexivity.
   - destruct (seff s); cbn; intros Hne;
-      try (apply lookup_update_other; exact Hne).
-    unfold apply_eff. rewrite update_id. reflexivity.
+      try (apply lookup_update_other; exact Hne);
+      unfold apply_eff; rewrite update_id; reflexivity.
   - destruct (seff s); cbn; intros Hne;
-      try (apply lookup_update_other; exact Hne).
-    unfold apply_eff. rewrite update_id. reflexivity.
+      try (apply lookup_update_other; exact Hne);
+      unfold apply_eff; rewrite update_id; reflexivity.
 Qed.
 
 Lemma all_parsed_map ls ss : all_parsed ls = Some ss -> ls = map Some ss.
